@@ -2,7 +2,7 @@ import PhysisModel.Base.ReaderC16
 /-!
 Model of `src/layer/mod.rs` `LayerGroup::from_existing` / `LayerGroup::write_to_buffer`, restricted to
 groups whose single chunk has **no layers** (C16's quantifier).  The reader answers `unmodelled` as soon
-as `layer_count ≠ 0`; the writer is modelled for `chunks.len() = 1`, `chunks[0].layers = []`.
+as a `layer_count ≠ 0` passes the reader's own plausibility check; the writer is modelled for `chunks.len() = 1`, `chunks[0].layers = []`.
 `StringHeap::read_string` pushes every byte as a `char` (Latin-1), so the returned `String` is the
 UTF-8 encoding of those code points.
 -/
@@ -62,7 +62,12 @@ def fromExistingAt (file cur : Bytes) : Outcome Group :=
   | none => .panic
   | some (layerCount, _r) =>
   if i32NonPos chunkSize then .none else
-  if layerCount != 0 then .unmodelled else
+  if layerCount != 0 then
+    -- "the offsets follow: a count that does not fit in the rest of the buffer is corrupt":
+    -- `layer_count < 0 || layer_count as u64 * 4 > remaining` (36 bytes have been read) is `None`;
+    -- any other non-zero count enters the layer parser, which is outside this model
+    if layerCount ≥ 0x80000000 ∨ layerCount.toNat * 4 > file.length - 36 then .none else .unmodelled
+  else
   .ok ⟨fileId, chunkId, layerGroupId, latin1ToUtf8 name⟩
 
 def fromExisting (buffer : Bytes) : Outcome Group := fromExistingAt buffer buffer
